@@ -589,3 +589,44 @@ def rule_plan(ctx) -> RuleResult:
     if not oks:
         res.report("core._simple_combine|no-self-reindex", sc.where(), sc.qualname, "_simple_combine no longer re-indexes intermediates when they were not re-indexed at the block stage")
     return res
+
+
+# ---------------------------------------------------------------------------------------------
+def rule_copermute(ctx) -> RuleResult:
+    res = RuleResult("R-COPERMUTE", "labels and values are moved to the end with the same permutation of the reduced axes", min_instances=1)
+    f = ctx.prog.func("core.groupby_reduce")
+    pm = parents_map(f.node)
+    calls = [c for c in calls_in(f.node) if norm(c.func) == "_move_reduce_dims_to_end" and len(c.args) == 2]
+    if len(calls) < 2:
+        raise AnalysisError(f"groupby_reduce: {len(calls)} calls of _move_reduce_dims_to_end (hand-confirmed: one for the labels, one for the values)")
+    by_block: dict[int, list] = {}
+    for c in calls:
+        st = next((a for a in ancestors(c, pm) if isinstance(a, ast.stmt)), None)
+        blk = pm.get(id(st))
+        by_block.setdefault(id(blk), []).append(c)
+    for blk, cs in by_block.items():
+        lab = [c for c in cs if norm(c.args[0]).startswith("by")]
+        val = [c for c in cs if norm(c.args[0]) == "array"]
+        if not lab or not val:
+            res.report("core.groupby_reduce|copermute-unpaired", f.where(cs[0]), f.qualname,
+                       "the reduced axes of the labels and of the values are not moved to the end in the same block")
+            continue
+        la, va = lab[0].args[1], val[0].args[1]
+        ok = norm(la) == norm(va)
+        inner = la
+        if isinstance(inner, ast.Call) and norm(inner.func) == "tuple" and inner.args:
+            inner = inner.args[0]
+        if isinstance(inner, (ast.GeneratorExp, ast.ListComp)) and len(inner.generators) == 1 and not inner.generators[0].ifs \
+                and norm(inner.generators[0].iter) == norm(va):
+            ok = True      # element-wise image of the value axes, in the same order
+        # accepted alternative: both sequences are sorted beforehand
+        if not ok and isinstance(va, ast.Name):
+            sc = ctx.resolver.scope(f)
+            if any(kind == "assign" and isinstance(node, ast.Call) and "sorted" in norm(node.func) for kind, node in sc.bind.get(va.id, [])):
+                ok = True
+        res.inst(f"groupby_reduce: labels moved with {norm(la)[:60]}, values with {norm(va)}: same permutation: {ok}", "copermute")
+        if not ok:
+            res.report("core.groupby_reduce|copermute", f.where(lab[0]), f.qualname,
+                       f"the labels' reduced axes {norm(la)[:70]} are not an element-wise image of the values' axes {norm(va)} in the same order: "
+                       "for a non-ascending axis tuple both are flattened to the same length but each label is paired with another element's value")
+    return res
